@@ -178,3 +178,35 @@ Example C13_directory_pair_example :
   directory_pair_c has (split_slash (STR "/w/build")) true (split_slash (STR "/w/./src/")) =
   ([STR "w"; STR "src"], [STR "w"; STR "build"]).
 Proof. split; vm_compute; reflexivity. Qed.
+
+(* ---- ForwardOptions.recurse: what the static libraries of a link step forward (libraries, link / compile options,
+   packages) is merged in the order in which the script lists the libraries, depth first.  The result is NOT a function
+   of the set of libraries (C13_forward_order_matters), so it has to be computed from the list the script gave, never
+   from a set; the walk distributes over the list (C13_forward_follows_list_order), and the explicit fuel of the model
+   is no restriction on graphs built bottom-up, as build scripts build them (C13_forward_fuel). ---- *)
+From BFG Require Misc.Forward Misc.ForwardProofs.
+Theorem C13_forward_follows_list_order : forall k g l1 l2,
+  Forward.recurse k g (l1 ++ l2) = Forward.rapp (Forward.recurse k g l1) (Forward.recurse k g l2).
+Proof. exact ForwardProofs.recurse_app. Qed.
+Print Assumptions C13_forward_follows_list_order.
+
+Theorem C13_forward_order_matters : exists g l1 l2,
+  Permutation l1 l2 /\ Forward.recurse 2%nat g l1 <> Forward.recurse 2%nat g l2.
+Proof. exact ForwardProofs.recurse_order_matters. Qed.
+Print Assumptions C13_forward_order_matters.
+
+Theorem C13_forward_fuel : forall g, Forward.bottom_up g = true ->
+  forall (n : nat) (l : list nat), (forall i, In i l -> (i < n)%nat) -> forall k : nat, (n <= k)%nat ->
+  Forward.recurse (S k) g l = Forward.recurse (S n) g l.
+Proof. exact ForwardProofs.recurse_fuel. Qed.
+Print Assumptions C13_forward_fuel.
+
+(* two static libraries that each forward a shared library and an option, and one depending on both *)
+Example C13_forward_example :
+  let g := [None; None;
+            Some (Forward.mkFwd [STR "-pthread"] [0%nat]); Some (Forward.mkFwd [STR "-O1"] [1%nat]);
+            Some (Forward.mkFwd [] [3%nat; 2%nat])] in
+  Forward.recurse 5%nat g [2%nat; 3%nat] = ([STR "-pthread"; STR "-O1"], [0%nat; 1%nat]) /\
+  Forward.recurse 5%nat g [4%nat] = ([STR "-O1"; STR "-pthread"], [3%nat; 2%nat; 1%nat; 0%nat]) /\
+  Forward.bottom_up g = true.
+Proof. repeat split; vm_compute; reflexivity. Qed.
